@@ -4,6 +4,8 @@ import (
 	"context"
 	"encoding/json"
 	"fmt"
+	"os"
+	"os/exec"
 	"sync/atomic"
 	"time"
 
@@ -207,6 +209,35 @@ func c11Conc(cc c11Cell, env *Env) CellResult {
 // callback (called once per cycle); wall-clock time is only used to wait for the daemon and never decides
 // the verdict: if the daemon does not complete 3 cycles within the patience window the cell is inconclusive.
 func c11Real(cc c11Cell, env *Env) CellResult {
+	// The daemon keeps running on real timers after the history has been judged; it must never coexist with
+	// a controlled execution of a later cell in the same worker, so every real-janitor cell runs in a process
+	// of its own.
+	self, _ := os.Executable()
+
+	out, err := exec.Command(self, "c11real", cc.id()).Output()
+	if err != nil {
+		return CellResult{Exhaustive: false, CapHit: "real-janitor subprocess failed: " + err.Error(), Execs: 1, States: 1, Transitions: 1}
+	}
+
+	var res CellResult
+	if err := json.Unmarshal(out, &res); err != nil {
+		return CellResult{Exhaustive: false, CapHit: "real-janitor subprocess: bad output: " + err.Error(), Execs: 1, States: 1, Transitions: 1}
+	}
+
+	return res
+}
+
+func init() {
+	extraCmds["c11real"] = func(args []string) {
+		var cc c11Cell
+		_ = json.Unmarshal([]byte(args[0]), &cc)
+
+		js, _ := json.Marshal(c11RealInProcess(cc))
+		fmt.Println(string(js))
+	}
+}
+
+func c11RealInProcess(cc c11Cell) CellResult {
 	res := CellResult{Exhaustive: true, Outcomes: map[string]int{}, Execs: 1, States: 1}
 
 	vclock.Reset()
